@@ -102,7 +102,9 @@ def mc_cases(draw, tier):
     elif op == "attention":
         c.update(seq=draw(st.sampled_from([16, 1024, 48]) | st.floats(math.log(16), math.log(1024)).map(lambda v: int(round(math.exp(v))))),
                  d=draw(st.sampled_from([16, 64, 128]) | st.integers(16, 128)), mult=draw(st.sampled_from([0.25, 16.0, 1.0]) | logmult(0.25, 16)),
-                 causal=draw(st.booleans()), p=draw(st.sampled_from([0.0, 0.0, 0.3, 0.1]) | st.floats(0, 0.3).map(lambda v: round(v, 3))))
+                 causal=draw(st.booleans()), p=draw(st.sampled_from([0.0, 0.0, 0.3, 0.1]) | st.floats(0, 0.3).map(lambda v: round(v, 3))),
+                 # cross-attention / decoding against a cache: the query length differs from the key / value length (both in range)
+                 seq_q=draw(st.sampled_from([None, None, 16, 1024, 64, 256])))
     elif op == "cross_entropy":
         c.update(V=draw(st.sampled_from([2, 3, 4, 8, 32768]) | st.floats(math.log(2), math.log(32768)).map(lambda v: int(round(math.exp(v))))),
                  mult=draw(st.sampled_from([1 / 16, 4.0, 1.0]) | logmult(1 / 16, 4)), uniform=draw(st.integers(0, 3)) == 0)
@@ -142,12 +144,22 @@ def run_mc(c) -> CaseResult:
         elif op == "attention":
             S, d, m, p = c["seq"], c["d"], c["mult"], c["p"]
             bh = max(1, N // (S * d))
-            q, k, v = (torch.randn(bh, S, d, generator=g).requires_grad_() for _ in range(3))
+            Sq = S if (c.get("seq_q") is None or c["causal"]) else c["seq_q"]
+            bh = max(1, N // (max(S, Sq) * d))
+            q = torch.randn(bh, Sq, d, generator=g).requires_grad_()
+            k, v = (torch.randn(bh, S, d, generator=g).requires_grad_() for _ in range(2))
             y = U.scaled_dot_product_attention(q, k, v, is_causal=c["causal"], dropout_p=p, mult=m)
             y.backward(torch.randn(y.shape, generator=g))
-            info = f"(seq={S}, head={d}, mult={m}, causal={c['causal']}, dropout={p})"
+            info = f"(query length={Sq}, key/value length={S}, head={d}, mult={m}, causal={c['causal']}, dropout={p})"
+            if Sq != S:
+                res.labels.append("cross-attention")
             band(res, "attention.out", rms(y), 0.7, 1.3, info=info)
-            band(res, "attention.grad_value", rms(v.grad), 0.7, 1.3, info=info)
+            if Sq == S:
+                band(res, "attention.grad_value", rms(v.grad), 0.7, 1.3, info=info)
+            else:
+                # (each value row collects gradient from Sq queries: its RMS carries a factor ~sqrt(Sq / S) that only equal lengths -
+                # the statement's single "sequence" - cancel; the output depends on the key / value length alone and stays in the band)
+                res.stat("attention.grad_value(cross)", rms(v.grad))
             res.stat("attention.grad_query", rms(q.grad))
             res.nontrivial = True
             res.labels += (["causal"] if c["causal"] else []) + (["dropout>0"] if p > 0 else []) + (["mult>4"] if m > 4 else [])
